@@ -2,8 +2,11 @@
 """tools/keep_seed.py <Cxx> <A|B>: store a confirmed seeded change under /verif/seeded/<Cxx>-<v>/"""
 import json, os, shutil, sys, re
 pid, v = sys.argv[1], sys.argv[2]
-src = f"/tmp/seedout-{pid}/{v}"
-log = f"/tmp/confirm-{pid}-{v}.log"
+rnd = os.environ.get("SEED_ROUND", "")
+src = f"/tmp/seedout{rnd}-{pid}/{v}"
+log = f"/tmp/confirm{rnd}-{pid}-{v}.log"
+# second-round changes are stored as variants C and D
+name = {"A": "C", "B": "D"}[v] if rnd == "2" else v
 res = open(log).read().strip().splitlines()[-1]
 m = re.search(r"suite_rc=(\d+) passed=(\d+) failed=(\d+) demo_with_change_rc=(\d+) demo_without_change_rc=(\d+)", res)
 assert m, res
@@ -11,19 +14,19 @@ suite_rc, passed, failed, demo_mut, demo_clean = map(int, m.groups())
 ok = suite_rc == 0 and failed == 0 and demo_mut != 0 and demo_clean == 0
 if not ok:
     print("NOT CONFIRMED:", res); sys.exit(1)
-dst = f"/verif/seeded/{pid}-{v}"
+dst = f"/verif/seeded/{pid}-{name}"
 os.makedirs(dst, exist_ok=True)
 shutil.copy(f"{src}/patch.diff", f"{dst}/patch.diff")
 shutil.copy(f"{src}/demo.rs", f"{dst}/demo.rs")
 notes = open(f"{src}/notes.txt").read()
 open(f"{dst}/notes.txt", "w").write(notes)
 meta = {
-    "id": f"{pid}-{v}",
+    "id": f"{pid}-{name}",
     "breaks_property": pid,
     "origin": "fresh sub-agent given only the property text and a scratch worktree of /repo (no access to /verif)",
     "needs_to_manifest": notes.strip(),
     "confirmed_by_me": {
-        "worktree": f"/tmp/seed-{pid} (scratch git worktree of /repo HEAD, removed afterwards)",
+        "worktree": f"/tmp/seed{rnd}-{pid} (scratch git worktree of /repo HEAD, removed afterwards)",
         "commands": [
             "git apply patch.diff",
             "CARGO_NET_OFFLINE=true cargo test --workspace --no-fail-fast --offline",
